@@ -143,6 +143,26 @@ func init() {
 		ex.setResult(f, call, isDefer, c.Ite(c.Ult(r, k(0x80)), ascii, other))
 		return nil, true
 	})
+	// ---- time: the clock is an arbitrary non-decreasing source ----
+	reg("time.Now", func(ex *Exec, st *State, th *Thread, f *Frame, fn *ssa.Function, args []Value, call *ssa.Call, isDefer bool) ([]*State, bool) {
+		ex.rep.Stubs["time.Now (value unused; elapsed times come from time.Since)"] = true
+		ex.setResult(f, call, isDefer, zeroResults(fn))
+		return nil, true
+	})
+	reg("time.Since", func(ex *Exec, st *State, th *Thread, f *Frame, fn *ssa.Function, args []Value, call *ssa.Call, isDefer bool) ([]*State, bool) {
+		ex.rep.Stubs["time.Since (arbitrary non-negative duration)"] = true
+		d := ex.nondet(st, "nondetI64", "elapsed", BV(64))
+		ex.addPC(st, ex.ctx.Sle(BVC(64, 0), d))
+		ex.setResult(f, call, isDefer, d)
+		return nil, true
+	})
+	reg("time.AfterFunc", func(ex *Exec, st *State, th *Thread, f *Frame, fn *ssa.Function, args []Value, call *ssa.Call, isDefer bool) ([]*State, bool) {
+		// the timer may fire at any later scheduling point: a thread that runs the function
+		ex.rep.Stubs["time.AfterFunc (fires at an arbitrary later point, or never before the harness ends)"] = true
+		ex.spawn(st, args[1], nil)
+		ex.setResult(f, call, isDefer, zeroResults(fn))
+		return nil, true
+	})
 	// ---- verifrt primitives ----
 	reg(modPath+"/verifrt.intOf", func(ex *Exec, st *State, th *Thread, f *Frame, fn *ssa.Function, args []Value, call *ssa.Call, isDefer bool) ([]*State, bool) {
 		iv, _ := args[0].(*Iface)
